@@ -438,10 +438,23 @@ def check(run):
             run.count('nfilters=%d' % len(c['filters']))
             for f in c['filters']:
                 run.count('filter_' + f[0])
+    # second tie: the predicate filters regenerated from the source
+    gen_problem = common.generated_model(run, 'gen_filters.py', 'GenFilters.v', 'GenFiltersProofs.v')
+    run.assumptions.append("tools/gen_filters.py (fail-closed Python-ast translator of not_from_undef, Edge, Delta, "
+                           "IfOutput, NotIfInitialized, ~230 lines) is trusted to render the accepted shapes faithfully")
     res = common.standard_flow(run, spec, cases)
     for c, o, ch in res:
         if c['kind'] == 'pipe':
             run.count('outcome_' + o['kind'])
+    if gen_problem is not None:
+        run.add_obligation(False)
+        if not any(v['concrete'] for v in run.violations):
+            run.violation('translation', dict(correspondence='Gen/GenFiltersProofs.v: generated_not_from_undef, '
+                                              'generated_edge, generated_delta, generated_if_output, '
+                                              'generated_not_if_initialized'),
+                          gen_problem, clause='generated_model', concrete=False)
+        else:
+            run.notes.append("generated model: " + gen_problem[:500])
 
 
 def replay(run, path):
